@@ -14,16 +14,19 @@ What is abstract
 * The registry (`message_type_to_class`, `messages_with_p1_time`, `messages_with_system_time`) is `Reg`.
 
 State that is constant after `DataLoader.open()` on an indexed file (`have_index() = True`,
-`_need_t0 = _need_system_t0 = False`; asserted on the real object by the harness) is not carried, so
-the "postponed filter" branch (`filters_applied = False`) does not appear.  `max_bytes = None`,
+`_need_t0 = _need_system_t0 = False`; observed on the real object by the harness after open() and after
+every call, also on logs whose first system-timestamped / P1-timestamped message lies beyond the 1 MiB
+that open() searches) is not carried, so the "postponed filter" branch (`filters_applied = False`) does
+not appear.  `open()` empties the cache (926a823): a history of the model starts at an `open()`.  `max_bytes = None`,
 `return_bytes = False` in every modelled call (the keys are present in `Params` with those values).
 
-`Variant` switches the six repairs made to the code on or off; `Variant.current` (all on) is the
-code as it is, `Variant.legacy` (all off) the code before the repairs.  `Variant.current` is compared
-with the working tree on every run; the variants 00000, 10000, 11000, 11100, 11110 (sixth bit 0) were
+`Variant` switches the repairs made to the code on or off (six in `_read`, the seventh in
+`TimeRange.__eq__`); `Variant.current` (all on) is the code as it is, `Variant.legacy` (all off) the
+code before the repairs.  `Variant.current` is compared with the working tree on every run; the variants 00000, 10000, 11000, 11100, 11110 (sixth bit 0) were
 compared once with the repository commits 7b12b66, aa1fd47, de0a08a, f5bc4ad, c531000 (1214 call
 histories each, no difference; `C12_VARIANT=<bits> FE_REPO=<worktree at that commit> ./check C12`), and
-111110 is the code before the sixth repair (positive `max_messages` no longer cuts the index).
+111110 is the code before the sixth repair (positive `max_messages` no longer cuts the index), 1111110 the
+code before 20ca4d6 (`TimeRange.__eq__` ignored the t0 of relative ranges).
 
 The set of available source identifiers (`Reader.available`, the default of `source_ids`) is sampled by
 the reader from the first messages of each type when the file is opened and never changes afterwards:
@@ -50,11 +53,16 @@ def Msg.time : Msg → Option Int
   | .orig e => e.time
   | .dflt _ t => some t
 
-/-- `TimeRange.__eq__` compares exactly these three. -/
+/-- A `TimeRange` argument.  `t0` is the `p1_t0` the caller gave a *relative* range explicitly (`none` = not
+given: the reader evaluates the range from the t0 of the log; for an absolute range the code uses `p1_t0`
+neither in `__eq__` nor in the selection, and the model carries `none`).  `TimeRange.__eq__` compares the
+bounds, `absolute` and - since 20ca4d6, for relative ranges - t0; before, t0 was ignored although
+`FileIndex.get_time_range()` evaluates the range with it (`Variant.keyT0`). -/
 structure TimeRange where
   start : Option Int
   stop : Option Int
   absolute : Bool
+  t0 : Option Int := none
   deriving DecidableEq, Repr
 
 inductive Align where
@@ -122,10 +130,11 @@ structure Variant where
   sliceExact : Bool    -- index slice for max_messages only when nothing is tested at read time
   dequeFull : Bool     -- the last-N buffer sees the whole stream (no early `break`)
   sliceNonPos : Bool   -- the index is cut only for N ≤ 0; for N > 0 the running counter ends the read
+  keyT0 : Bool         -- `TimeRange.__eq__` (the `time_range` key) tells relative ranges with different explicit t0 apart
   deriving DecidableEq, Repr
 
-def Variant.current : Variant := ⟨true, true, true, true, true, true⟩
-def Variant.legacy : Variant := ⟨false, false, false, false, false, false⟩
+def Variant.current : Variant := ⟨true, true, true, true, true, true, true⟩
+def Variant.legacy : Variant := ⟨false, false, false, false, false, false, false⟩
 
 /-- `MessageData`. `arrays` = the messages the numpy members were last computed from (after NaN
 removal), `none` while `to_numpy` has not run; `idxArr` = `message_index` is an `ndarray`
@@ -197,7 +206,7 @@ def eff (reg : Reg) (rd : Reader) (log : List Entry) (a : Args) : Eff :=
 /-- The `params` dictionary.  It is built before `return_in_order` overrides `return_numpy` and
 `time_align`, so it holds the caller's values of those two. -/
 def mkParams (v : Variant) (a : Args) (e : Eff) : Params :=
-  { timeRange := e.timeRange
+  { timeRange := if v.keyT0 then e.timeRange else { e.timeRange with t0 := none }
     maxMessages := e.maxMessages
     maxBytes := none
     requireP1 := e.requireP1
